@@ -316,3 +316,11 @@ Proof.
   repeat split; try assumption; try reflexivity.
   destruct (d2 =? d1); reflexivity.
 Qed.
+
+(* since /repo 2da36a1: an ingest naming an id the datastore knows (location row OR records row) is refused and changes nothing *)
+Lemma ingest_of_held_refused_l : forall s d1 d2 r k,
+  has_rec s d1 || memN d1 (loc s) || (has_rec s d2 || memN d2 (loc s)) = true -> exists e, step s (Ingest d1 d2 r k) = (s, Err e).
+Proof.
+  intros s d1 d2 r k H. simpl. destruct (ctype s r) as [[] |]; try (eexists; reflexivity).
+  destruct (d1 =? d2); [eexists; reflexivity |]. destruct (negb _); [eexists; reflexivity |]. rewrite H. eexists. reflexivity.
+Qed.
